@@ -551,7 +551,7 @@ def _is_err(e):
     return e is not None and e[0] == "adt" and e[1] == "core::result::Result" and e[2] == "Err"
 
 
-def synzero(ctx):
+def _synzero_shape(ctx):
     r = "SYNZERO"
     f = ctx.facts()
     need(DGEN in f.thir, r, DGEN)
@@ -907,7 +907,7 @@ def prov_rsdec(ctx):
     return obs
 
 
-def gather_scatter(ctx):
+def _gather_scatter_shape(ctx):
     r = "GATHER-SCATTER"
     f = ctx.facts()
     need(DGEN in f.thir, r, DGEN)
@@ -1097,7 +1097,7 @@ def scale_stmt(f, stl, var):
     return hits[0] if len(hits) == 1 else None
 
 
-def root_cover(ctx):
+def _root_cover_shape(ctx):
     """ROOT-COVER: chien_search tries every non-zero field element.  The error locator's roots are found by exhaustive
     evaluation; a root that is never tried makes decode_gen report Malfunction for a correctable word (an error at the
     position whose locator is the skipped power).  Structural clauses: the search loop runs over exactly the 255 exponents
@@ -1497,6 +1497,8 @@ def _gf_hooks():
                 return T._loaded(x["#0"])
             if isinstance(x, T.Token):
                 return wrap(x)              # GF::from(u8)
+            if isinstance(x, dict) and x.get("__adt__") == GFT and str(c.get("ty", "")).endswith("galois::GF"):
+                return x                    # T = GF: the identity conversion
             return NotImplemented
         if GFT in cc and (" as core::ops::AddAssign" in cc or " as core::ops::SubAssign" in cc or " as core::ops::MulAssign" in cc) and len(c["args"]) == 2:
             tgt = folder.fold(c["args"][0])
@@ -1576,11 +1578,20 @@ def _pee_exec(ctx):
         fo.max_iter = 100000
         fo.sym_eq = lambda a_, b_: True
         try:
-            fo.run(b["body"])
+            flag = fo.run(b["body"])
         except T.Trap as ex:
             return False, "word of %d codewords, %d syndromes: %s" % (n, k, ex)
         except T.Undecidable as ex:
             return None, "primitive_element_evaluation does not fold on linear forms (%s)" % ex
+        # the returned flag: `false` must mean that every one of the k cells is zero (the OR over all cells)
+        if not isinstance(flag, T.Sym):
+            return False, "word of %d codewords, %d syndromes: the returned flag does not depend on the syndromes (%r)" % (n, k, flag)
+        try:
+            zero_tests = T.sym_required(flag.f, False)
+        except T.Undecidable as ex:
+            return False, "word of %d codewords, %d syndromes: `no errors` is not the conjunction `every cell is zero` (%s)" % (n, k, ex)
+        if len(zero_tests) != k:
+            return False, "word of %d codewords, %d syndromes: `no errors` is reported after looking at %d of the %d cells" % (n, k, len(zero_tests), k)
         for i in range(k):
             a = gf.pow2(i + 1)
             want = {}
@@ -1596,7 +1607,7 @@ def _pee_exec(ctx):
                 return False, "word of %d codewords: syndrome %d has coefficient %s for %s, c(alpha^%d) has %s" % (
                     n, i, got.get(diff, 0), "the constant term" if diff is None else "codeword " + str(diff)[1:], i + 1, want.get(diff, 0))
         n_pairs += 1
-    return True, "%d (word length, syndrome count) combinations: cell i is the word's polynomial evaluated at alpha^(i+1)" % n_pairs
+    return True, "%d (word length, syndrome count) combinations: cell i is the word's polynomial evaluated at alpha^(i+1), and the returned flag is false exactly when all cells are zero" % n_pairs
 
 
 def syndromes(ctx):
@@ -1605,3 +1616,296 @@ def syndromes(ctx):
     ok, det = pee_exec(ctx)
     site = T.span_str(f.thir[PEE]["span"]) if PEE in f.thir else None
     return [Ob(r, "evaluation", bool(ok), ("cannot decide: " if ok is None else "") + "primitive_element_evaluation computes the syndromes: " + str(det), site=site)]
+
+
+# ---- decode_gen folded with model locator / error-value callbacks ----------------------------------------------------------
+
+def gs_exec(ctx):
+    """decode_gen folded on opaque block views (data d0.., error e0.., the stride and k of real symbol sizes) with a model
+    locator: the syndrome evaluation reports errors, the locator / Chien search report one error at index i (counted from the
+    end of the block's word, as the decoder does), the error-value routine reports the value E, the re-evaluation reports
+    `clean` (or `not clean`).  For every i the store must hit exactly the codeword at position n-i-1 of the chain
+    data[0], data[s], .. ++ error[0], error[s], .. with `codeword - E`, an index i >= n must be refused, both syndrome evaluations
+    must run over that same chain with all k cells, and the result is Ok exactly when the re-evaluation is clean (and Ok without
+    any store when the first evaluation is clean).  (ok | None, detail)"""
+    return ctx.memo("gs_exec", lambda: list(_gs_exec(ctx)))
+
+
+def _gs_exec(ctx):
+    f = ctx.facts()
+    b = f.thir.get(DGEN)
+    if b is None or any((p_.get("pat") or {}).get("k") != "Bind" for p_ in b["params"]):
+        return None, "decode_gen not found"
+    # parameters by role: either (data, error, stride, err_len, locator, values) or a private struct bundling the two slices and
+    # the stride, followed by (err_len, locator, values)
+    pn = [p_["pat"]["name"] for p_ in b["params"]]
+    bundle = None
+    if len(pn) == 4:
+        import re as _re
+        ty = _re.sub(r"<.*>$", "", str(b["params"][0]["pat"].get("ty", "")).replace("&mut ", "").replace("&", "").strip())
+        ad = f.adts.get(ty)
+        if ad and ad.get("kind") == "Struct":
+            fl = ad["variants"][0]["fieldtys"]
+            fdata = [x["name"] for x in fl if "[u8]" in x["ty"] and "data" in x["name"]]
+            ferr = [x["name"] for x in fl if "[u8]" in x["ty"] and "err" in x["name"]]
+            fstr = [x["name"] for x in fl if x["ty"] == "usize"]
+            if len(fl) == 3 and len(fdata) == 1 and len(ferr) == 1 and len(fstr) == 1:
+                bundle = (ty, [x["name"] for x in fl], fdata[0], ferr[0], fstr[0])
+        if bundle is None:
+            return None, "decode_gen: unexpected parameters"
+    elif len(pn) != 6:
+        return None, "decode_gen(data, error, stride, err_len, locator, values): unexpected parameters"
+    views = set()
+    for row in p_symbols.reference():
+        B, nd, k = row["blocks"], row["data"], row["ecc_per_block"]
+        for blk in ({0, B - 1} if B > 1 else {0}):
+            views.add((nd - blk, k * B - blk, B, k))
+    views = sorted(views, key=lambda v: (v[0] + v[1], v))
+    if ctx.tier != "thorough":
+        views = [v for v in views if v[0] + v[1] <= 120] + [v for v in views if v[2] == 10]
+    E = 0x5A
+    alog = f.const("errorcode::galois::ANTI_LOG")
+    if not alog:
+        return None, "ANTI_LOG not found"
+    gfh = _gf_hooks()
+    n_cases = 0
+
+    def gfv(x):
+        return {"__adt__": GFT, "__variant__": "GF", "#0": x, "0": x}
+
+    for (ld, le, s, k) in views:
+        n_d, n_e = -(-ld // s), -(-le // s)
+        n = n_d + n_e
+        for mode in ("clean", "fix-ok", "fix-bad"):
+            idxs = [None] if mode == "clean" else ([0, 1, n_e - 1, n_e, n - 1, n, n + 3] if mode == "fix-ok" else [1])
+            for i in idxs:
+                if i is not None and i > 254:
+                    continue
+                data = [T.Token("d%d" % j) for j in range(ld)]
+                error = [T.Token("e%d" % j) for j in range(le)]
+                chain0 = ["d%d" % j for j in range(0, ld, s)] + ["e%d" % j for j in range(0, le, s)]
+                pee = []
+
+                def on_call(folder, c, pee=pee, mode=mode, i=i):
+                    cc = T.canon(T.callee_of(c))
+                    if cc == PEE:
+                        word = folder.fold(c["args"][0])
+                        syn = T._loaded(folder.fold(c["args"][1]))
+                        pee.append(([T._loaded(x) for x in word] if isinstance(word, list) else word, len(syn) if isinstance(syn, list) else None))
+                        if len(pee) == 1:
+                            return mode != "clean"
+                        return mode == "fix-bad"
+                    if cc == CHIEN:
+                        return [gfv(alog[i])]
+                    if cc == "HOOK::locator":
+                        return {"__adt__": "core::result::Result", "__variant__": "Ok", "#0": [gfv(1), gfv(7)], "0": None}
+                    if cc == "HOOK::values":
+                        syn = T._loaded(folder.fold(c["args"][2]))
+                        if isinstance(syn, list) and syn:
+                            cell = syn[0]
+                            if isinstance(cell, T.Ref):
+                                cell.store(gfv(E))
+                            elif isinstance(cell, dict):
+                                cell.clear()
+                                cell.update(gfv(E))
+                            else:
+                                syn[0] = gfv(E)
+                        return ()
+                    return gfh(folder, c)
+                if bundle:
+                    blk = {"__adt__": bundle[0], "__variant__": bundle[0].split("::")[-1]}
+                    for fi, fnm in enumerate(bundle[1]):
+                        val = data if fnm == bundle[2] else error if fnm == bundle[3] else s
+                        blk[fnm] = val
+                        blk["#%d" % fi] = val
+                    env = {pn[0]: blk, pn[1]: k, pn[2]: {"__fn__": "HOOK::locator"}, pn[3]: {"__fn__": "HOOK::values"}}
+                else:
+                    env = {pn[0]: data, pn[1]: error, pn[2]: s, pn[3]: k, pn[4]: {"__fn__": "HOOK::locator"}, pn[5]: {"__fn__": "HOOK::values"}}
+                fo = T.Folder(f, env=env, on_call=on_call, effects=True, local_calls=3)
+                fo.max_iter = 5000
+                try:
+                    res = fo.run(b["body"])
+                except T.Trap as ex:
+                    return False, "views of %d data / %d error codewords, stride %d, k %d, error index %s: traps: %s" % (ld, le, s, k, i, ex)
+                except T.Undecidable as ex:
+                    return None, "decode_gen does not fold (%s)" % ex
+                n_cases += 1
+                kind = res.get("__variant__") if isinstance(res, dict) else None
+                errv = (res.get("#0") or {}).get("__variant__") if kind == "Err" and isinstance(res.get("#0"), dict) else None
+                where = "views of %d data / %d error codewords, stride %d, k %d" % (ld, le, s, k)
+
+                def show(x):
+                    x = T._loaded(x)
+                    return str(x) if isinstance(x, T.Token) else ("+".join(sorted("%s*%s" % (c0, t0) if t0 is not None else str(c0) for t0, c0 in x.t.items())) if isinstance(x, Lin) else repr(x))
+                cur = [show(x) for x in data] + [show(x) for x in error]
+                orig = ["d%d" % j for j in range(ld)] + ["e%d" % j for j in range(le)]
+                changed = [j for j in range(len(cur)) if cur[j] != orig[j]]
+                if not pee or [str(x) for x in pee[0][0]] != chain0 or pee[0][1] != k:
+                    return False, "%s: the syndromes are computed from %d codewords %s.. into %s cells, expected the chain %s.. into %d cells" % (
+                        where, len(pee[0][0]) if pee else 0, [str(x) for x in (pee[0][0] if pee else [])][:3], pee[0][1] if pee else None, chain0[:3], k)
+                if mode == "clean":
+                    if kind != "Ok" or changed or len(pee) != 1:
+                        return False, "%s: a clean block gives %s with %d codewords changed" % (where, kind, len(changed))
+                    continue
+                if i >= n:
+                    if not (kind == "Err" and errv == "ErrorsOutsideRange") or changed:
+                        return False, "%s: an error located at index %d (block length %d) gives %s(%s), %d codewords changed; expected Err(ErrorsOutsideRange)" % (where, i, n, kind, errv, len(changed))
+                    continue
+                pos = n - i - 1
+                tok = chain0[pos]
+                tgt = orig.index(tok)
+                want = "1*%s+%d" % (tok, E)
+                if changed != [tgt] or sorted(cur[tgt].split("+")) != sorted(want.split("+")):
+                    return False, "%s: an error of value %d located at index %d must change chain position %d (%s) to %s - E; changed: %s" % (
+                        where, E, i, pos, tok, tok, [(orig[j], cur[j]) for j in changed][:3])
+                if len(pee) != 2 or [show(x) for x in pee[1][0]] != [cur[orig.index(t0)] for t0 in chain0] or pee[1][1] != k:
+                    return False, "%s: after the correction the syndromes must be re-evaluated over the same chain and all %d cells (calls: %d, cells: %s)" % (where, k, len(pee), pee[1][1] if len(pee) > 1 else None)
+                if mode == "fix-ok" and kind != "Ok":
+                    return False, "%s: a corrected block whose re-evaluation is clean gives %s(%s)" % (where, kind, errv)
+                if mode == "fix-bad" and kind != "Err":
+                    return False, "%s: Ok is returned although the re-evaluated syndromes are not all zero" % where
+    return True, "%d runs over %d block views: the store hits chain position n-i-1, out-of-range locations are refused, both evaluations use the whole chain and k cells, Ok iff the re-evaluation is clean" % (n_cases, len(views))
+
+
+def _with_gs_fallback(ctx, rule, shape_fn, keys_decided, names):
+    """run the statement-shape rule; obligations about decode_gen that it cannot establish (or its anchors missing) are decided by
+    folding decode_gen with model callbacks (gs_exec); in the thorough tier the fold is reported as well"""
+    from .core import AnchorMissing
+    try:
+        obs = shape_fn(ctx)
+    except (AnchorMissing, KeyError, IndexError, TypeError) as ex:
+        obs = [Ob(rule, k0, False, "%s - statement shape not recognised (%s)" % (w0, str(ex)[:80])) for k0, w0 in names]
+    failed = [o for o in obs if not o.ok and keys_decided(o.key.split(":", 1)[1])]
+    if not failed and ctx.tier != "thorough" and all(o.ok for o in obs):
+        return obs
+    okx, detx = gs_exec(ctx)
+    out = []
+    for o in obs:
+        k1 = o.key.split(":", 1)[1]
+        if not o.ok and k1 in ("pee-or", "pee-points"):
+            okp, detp = pee_exec(ctx)
+            if okp:
+                out.append(Ob(rule, k1, True, o.what + " (decided by folding primitive_element_evaluation over linear forms: " + str(detp) + ")", site=o.site))
+                continue
+        if not o.ok and k1 == "decode-all-blocks":
+            okd, detd = rsdec_exec(ctx)
+            if okd:
+                out.append(Ob(rule, k1, True, o.what + " (decided by folding decode() for all 48 sizes: " + str(detd) + ")", site=o.site))
+                continue
+        if o in failed and okx:
+            out.append(Ob(rule, o.key.split(":", 1)[1], True, o.what + " (statement shape not recognised; decided by folding decode_gen with a model locator: " + str(detx) + ")", site=o.site))
+        else:
+            out.append(o)
+    if ctx.tier == "thorough" or failed:
+        out.append(Ob(rule, "exec:decode_gen", bool(okx) or (okx is None and not failed), ("cannot decide: " if okx is None else "") + "decode_gen folded with a model locator: " + str(detx)))
+    return out
+
+
+def synzero(ctx):
+    return _with_gs_fallback(ctx, "SYNZERO", _synzero_shape, lambda k0: k0.startswith(("syndromes-len", "eval:", "ok:", "ok-sites")),
+                             [("syndromes-len", "k syndrome cells"), ("eval:1:view", "first evaluation over the block's chain"), ("eval:1:all-syndromes", "first evaluation fills all k cells"),
+                              ("ok:1", "Ok on a clean block"), ("eval:2:view", "re-evaluation over the block's chain"), ("eval:2:all-syndromes", "re-evaluation fills all k cells"),
+                              ("ok:2", "Ok only after a clean re-evaluation"), ("ok-sites", "no other Ok exit"), ("pee-or", "the flag is the OR over all cells"),
+                              ("pee-points", "evaluation points"), ("decode-all-blocks", "every block decoded")])
+
+
+def gather_scatter(ctx):
+    return _with_gs_fallback(ctx, "GATHER-SCATTER", _gather_scatter_shape, lambda k0: True,
+                             [("location", "the location index is the discrete log"), ("range-reject", "an index >= n is refused"),
+                              ("store-address", "the store goes through the chain at n-i-1"), ("n", "n = chain length")])
+
+
+def chien_exec(ctx):
+    """chien_search folded with opaque coefficients (linear forms; lengths 3 .. 35): every push of a root must be guarded by
+    exactly `p(x) = 0` for the element x that is pushed, where p is the polynomial with the given coefficients (highest power
+    first), and the elements tried must be all 255 non-zero field elements, each once, plus 0 guarded by `constant term = 0`.
+    (ok | None, detail)"""
+    return ctx.memo("chien_exec", lambda: list(_chien_exec(ctx)))
+
+
+def _chien_exec(ctx):
+    f = ctx.facts()
+    b = f.thir.get(CHIEN)
+    if b is None or len(b["params"]) != 1 or (b["params"][0].get("pat") or {}).get("k") != "Bind":
+        return None, "chien_search(c) not found"
+    pn = b["params"][0]["pat"]["name"]
+    lens = (3, 4, 6, 18, 35) if ctx.tier != "thorough" else tuple(range(3, 36))
+    total = 0
+    for L in lens:
+        coeff = [{"__adt__": GFT, "__variant__": "GF", "#0": T.Token("c%d" % j), "0": T.Token("c%d" % j)} for j in range(L)]
+        fo = T.Folder(f, env={pn: coeff}, on_call=_gf_hooks(), effects=True, local_calls=3)
+        fo.max_iter = 100000
+        fo.sym_eq = lambda a_, b_: True
+        fo.guarded = []
+        try:
+            res = fo.run(b["body"])
+        except T.Trap as ex:
+            return False, "polynomial with %d coefficients: %s" % (L, ex)
+        except T.Undecidable as ex:
+            return None, "chien_search does not fold on linear forms (%s)" % ex
+        if [T._loaded(x) for x in (res or [])]:
+            return False, "polynomial with %d coefficients: %d roots are reported unconditionally" % (L, len(res))
+        seen = {}
+        for cond, val in fo.guarded:
+            x = val.get("#0") if isinstance(val, dict) else val
+            if not isinstance(x, int) or isinstance(x, bool):
+                return False, "polynomial with %d coefficients: a pushed root is not a field constant (%r)" % (L, x)
+            try:
+                req = T.sym_required(cond.f, True)
+            except T.Undecidable as ex:
+                return False, "polynomial with %d coefficients: the test guarding root %d is not a single equation (%s)" % (L, x, ex)
+            if len(req) != 1:
+                return False, "polynomial with %d coefficients: root %d is guarded by %d equations" % (L, x, len(req))
+
+            def form(v):
+                v = T._loaded(v)
+                if isinstance(v, dict) and "#0" in v:
+                    v = T._loaded(v["#0"])
+                return _lin(v).t
+            lhs, rhs = form(req[0][0]), form(req[0][1])
+            diff = dict(lhs)
+            for k0, c0 in rhs.items():
+                c2 = diff.get(k0, 0) ^ c0
+                if c2:
+                    diff[k0] = c2
+                else:
+                    diff.pop(k0, None)
+            # p(x) with coefficients highest power first: c_j * x^(L-1-j)
+            want = {}
+            p = 1
+            for j in range(L - 1, -1, -1):
+                if p:
+                    want["c%d" % j] = p
+                p = gf.mul(p, x)
+            if x == 0:
+                want = {"c%d" % (L - 1): 1}
+            if diff != want:
+                d0 = next((t0 for t0 in sorted(set(diff) | set(want), key=str) if diff.get(t0, 0) != want.get(t0, 0)), None)
+                return False, "polynomial with %d coefficients: root %d is reported when a sum with coefficient %s for %s vanishes; p(%d) has %s there" % (
+                    L, x, diff.get(d0, 0), d0, x, want.get(d0, 0))
+            if x in seen:
+                return False, "polynomial with %d coefficients: element %d is tried twice" % (L, x)
+            seen[x] = True
+        missing = [x for x in range(256) if x not in seen]
+        if missing:
+            return False, "polynomial with %d coefficients: %d field elements are never tried (first: %d)" % (L, len(missing), missing[0])
+        total += len(seen)
+    return True, "%d polynomial lengths: each of the 256 field elements x is reported exactly when p(x) = 0" % len(lens)
+
+
+def root_cover(ctx):
+    """ROOT-COVER: statement shapes of the Chien search (cheap, names the element); when they are not recognised - and always in
+    the thorough tier - decided by folding chien_search over linear forms (chien_exec)"""
+    from .core import AnchorMissing
+    r = "ROOT-COVER"
+    try:
+        obs = _root_cover_shape(ctx)
+    except (AnchorMissing, KeyError, IndexError, TypeError) as ex:
+        obs = [Ob(r, "shape", False, "the Chien search's statement shape is not recognised (%s)" % (str(ex)[:100],))]
+    failed = [o for o in obs if not o.ok]
+    if not failed and ctx.tier != "thorough":
+        return obs
+    okx, detx = chien_exec(ctx)
+    out = [o if o.ok or not okx else Ob(r, o.key.split(":", 1)[1], True, o.what + " (statement shape not recognised; decided by folding chien_search over linear forms: " + str(detx) + ")", site=o.site) for o in obs]
+    out.append(Ob(r, "exec", bool(okx) or (okx is None and not failed), ("cannot decide: " if okx is None else "") + "chien_search folded with opaque coefficients: " + str(detx)))
+    return out
